@@ -154,7 +154,10 @@ def run_case(case, tier="quick"):
             except Exception as e:
                 return dict(base, status="inconclusive", bucket="fresh_run_failed", detail=str(e)[:300])
         fresh = memo[mk]
-        if _timeouts(inproc) or _timeouts(fresh):
+        if _timeouts(inproc):
+            # an interrupted computation can leave sympy's caches inconsistent: the history ends here
+            break
+        if _timeouts(fresh):
             continue
         a, b = _comparable(inproc, req["goals"]), _comparable(fresh, req["goals"])
         # a goal that hit the time limit on one side is not compared
@@ -167,7 +170,13 @@ def run_case(case, tier="quick"):
     # hash seeds on the last analysis
     last = dict(_request(case, steps[-1]))
     last["goals"] = sorted(last["goals"])
-    ref = memo[json.dumps(last, sort_keys=True)]
+    lk = json.dumps(last, sort_keys=True)
+    if lk not in memo:
+        try:
+            memo[lk] = fresh_signature(last)
+        except Exception as e:
+            return dict(base, status="inconclusive", bucket="fresh_run_failed", detail=str(e)[:300])
+    ref = memo[lk]
     for hs in (["1", "12345"] if tier == "quick" else ["1", "2", "17", "12345"]):
         try:
             other = fresh_signature(last, hs)
